@@ -195,6 +195,10 @@ int kalign_write_msa(struct msa* msa, char* outfile, char* format)
         int type = FORMAT_FA;
 
         ASSERT(msa!= NULL, "No alignment");
+        /* an alignment read from a file is complete but not yet in its written form */
+        if(msa->aligned == ALN_STATUS_ALIGNED){
+                RUN(finalise_alignment(msa));
+        }
         if(msa->aligned != ALN_STATUS_FINAL){
                 ERROR_MSG("Cannot produce msa output: Sequences are not aligned.");
         }
